@@ -30,8 +30,8 @@ TRUSTED = ["harness/h_C15.cpp defines time() in the executable (the library's ti
            "and for e2e wires rParam/rParamI/rParamF/rArrayF ports to UndoHistory as test/undo-test.cpp does",
            "tools/props/C15.py reference machine (spec_check) written from the property text"]
 ASSUMPTIONS = ["the clock never goes backwards (advance-clock steps are >= 0)",
-               "the set-message of every recorded address fits the 256-byte rewind/replay buffer (address length "
-               "<= 247); longer addresses are run through model and implementation (tie) but are outside the Spec check",
+               "addresses of any length (up to 300 bytes generated: the set-message buffer of rewind/replay is sized "
+               "from the message since the long-address repair)",
                "payloads are 4-byte types (i f c) as in the statement's quantifier",
                "end-to-end stream: c-, i- and f-typed ports (rParam, rParamI, rParamF, rArrayF); float values exclude NaN and "
                "-0.0, for which the ports' float comparison and bit equality differ (the final fields are compared as bit patterns)"]
@@ -57,7 +57,7 @@ def gen_hist(rng, dist):
     if r < 0.04:
         pool[0] = "/" + "L" * rng.choice([242, 243, 244, 245, 246])      # longest that still fit
     elif r < 0.06:
-        pool[0] = "/" + "L" * rng.choice([247, 248, 251, 300])           # do not fit: tie only
+        pool[0] = "/" + "L" * rng.choice([247, 248, 251, 300])           # beyond the static 256-byte buffer
     types = {a: rng.choice("ifc") for a in pool}
     counter = {a: rng.choice(SPECIAL) for a in pool}
     ops = []
@@ -221,8 +221,6 @@ def predict(case):
         p = o.split(":")
         tail = ""
         if p[0] == "r":
-            if not fits(len(p[1]) // 2):
-                ok = False
             cl = m.record(p[1], p[2], int(p[3]), int(p[4]))
             fld = m.show()
         elif p[0] == "c":
